@@ -32,6 +32,9 @@ TEXT = {
  "C19": ("seeded deterministic simulation with handler crash (panic) injection; oracle: recovery function called exactly once with the value, client sees its error, abort sentinel re-raised",
          "Seeded search over panic values x program points x kinds x protocols x interceptor positions under adversarial schedules; the panic is a crash fault injected into the handler task.",
          "5 C19"),
+ "C10": ("seeded deterministic simulation on a fake clock; oracle: reference timeout grammar, value <= remaining with bounded loss, handler deadline == arrival + value exactly",
+         "Only decidable with a controlled clock: with real time the remaining time changes between context creation and header encoding. The duration and string domains are sampled by seeded, stratified generation (every unit x digit-count boundary), not enumerated.",
+         "5 C10"),
 }
 
 hooks_commits = subprocess.run(["git", "-C", "/repo", "log", "--format=%H", "--grep=^verif:"], capture_output=True, text=True).stdout.split()
